@@ -364,6 +364,9 @@ class Facts:
             import inline
             inline.normalise(self)
             inline.normalise_loops(self)
+        if os.environ.get('VF_NO_THREAD') != '1':
+            import inline
+            inline.thread_bools(self)
 
     def fatfs_fns(self):
         return [f for f in self.fns.values() if f.crate == 'fatfs']
